@@ -144,8 +144,12 @@ def sha2_compress(w, h, block, trace=None):
             trace.append(("W%d" % t, W[t]))
     a, b, c, d, e, f, g, hh = h
     for t in range(nr):
-        T1 = ADD(hh, BS(e, S1), Ch(e, f, g), K[t], W[t])
-        T2 = ADD(BS(a, S0), Maj(a, b, c))
+        s1e, che, s0a, mja = BS(e, S1), Ch(e, f, g), BS(a, S0), Maj(a, b, c)
+        T1 = ADD(hh, s1e, che, K[t], W[t])
+        T2 = ADD(s0a, mja)
+        if trace is not None:
+            trace += [("r%d.S1" % t, s1e), ("r%d.Ch" % t, che), ("r%d.S0" % t, s0a), ("r%d.Maj" % t, mja),
+                      ("r%d.T1" % t, T1), ("r%d.T2" % t, T2)]
         hh, g, f, e, d, c, b, a = g, f, e, ADD(d, T1), c, b, a, ADD(T1, T2)
         if trace is not None:
             trace.append(("r%d.e" % t, e))
@@ -246,15 +250,24 @@ KECCAK_RC = _keccak_rc()
 KECCAK_RHO = _keccak_rho()
 
 
-def keccak_round(A, ir):
+def keccak_round(A, ir, trace=None):
     """one round Rnd(A, ir) = iota(chi(pi(rho(theta(A)))), ir); A[x + 5*y]"""
     X = lambda a, b: T.t_xor(a, b, 64)
+
+    def tr(lab, vals):
+        if trace is not None:
+            for i, v in enumerate(vals):
+                trace.append(("r%d.%s%d" % (ir, lab, i), v))
     # theta
     C = [X(X(X(X(A[x], A[x + 5]), A[x + 10]), A[x + 15]), A[x + 20]) for x in range(5)]
+    tr("C", C)
     D = [X(C[(x - 1) % 5], rotl(C[(x + 1) % 5], 1, 64)) for x in range(5)]
+    tr("D", D)
     A = [X(A[i], D[i % 5]) for i in range(25)]
+    tr("theta", A)
     # rho
     A = [rotl(A[i], KECCAK_RHO[i], 64) for i in range(25)]
+    tr("rho", A)
     # pi: A'[x, y] = A[(x + 3y) mod 5, x]
     B = [None] * 25
     for x in range(5):
@@ -263,8 +276,10 @@ def keccak_round(A, ir):
     # chi
     A = [X(B[x + 5 * y], T.t_and(T.t_not(B[(x + 1) % 5 + 5 * y], 64), B[(x + 2) % 5 + 5 * y], 64))
          for y in range(5) for x in range(5)]
+    tr("chi", A[:1])
     # iota
     A[0] = X(A[0], KECCAK_RC[ir])
+    tr("out", A)
     return A
 
 
@@ -272,10 +287,7 @@ def keccak_f(A, trace=None):
     """Keccak-p[1600, 24] on 25 lanes (lane x + 5*y, little-endian bytes)"""
     A = list(A)
     for ir in range(24):
-        A = keccak_round(A, ir)
-        if trace is not None:
-            for i in range(25):
-                trace.append(("r%d.%d" % (ir, i), A[i]))
+        A = keccak_round(A, ir, trace)
     return A
 
 
@@ -355,17 +367,25 @@ def blake2s_F(h, block, t, last, trace=None):
         v[14] = X(v[14], M32)
 
     def G(a, b, c, d, x, y, tag):
+        def tr(step, k):
+            if trace is not None:
+                trace.append(("%s.s%d.v%d" % (tag, step, k), v[k]))
         v[a] = ADD(v[a], v[b], x)
+        tr(1, a)
         v[d] = rotr(X(v[d], v[a]), 16, w)
+        tr(2, d)
         v[c] = ADD(v[c], v[d])
+        tr(3, c)
         v[b] = rotr(X(v[b], v[c]), 12, w)
+        tr(4, b)
         v[a] = ADD(v[a], v[b], y)
+        tr(5, a)
         v[d] = rotr(X(v[d], v[a]), 8, w)
+        tr(6, d)
         v[c] = ADD(v[c], v[d])
+        tr(7, c)
         v[b] = rotr(X(v[b], v[c]), 7, w)
-        if trace is not None:
-            for k in (a, b, c, d):
-                trace.append(("%s.v%d" % (tag, k), v[k]))
+        tr(8, b)
     for r in range(10):
         s = BLAKE2S_SIGMA[r]
         G(0, 4, 8, 12, m[s[0]], m[s[1]], "r%d.g0" % r)
